@@ -226,6 +226,17 @@ pub fn eval_crc_equiv(buf: &[u8]) -> Sigs {
     }
 }
 
+/// the checksum is part of the frame: it survives the optional serialization unchanged (a frame
+/// rebuilt from its serialized form no longer holds the bytes to recompute it)
+pub fn eval_crc_serde(buf: &[u8]) -> Sigs {
+    let Decoded::Ok(f) = decode(buf) else { return vec![] };
+    let back = serde_json::to_string(&f).ok().and_then(|t| serde_json::from_str::<adsb_deku::Frame>(&t).ok());
+    match back {
+        Some(g) if g.crc != f.crc => vec![(format!("C03/checksum_lost_in_serialization/{}", refdec::class_of(buf).split('/').next().unwrap_or("")), format!("decoded checksum {:06x}, after a serialize / deserialize round trip {:06x}", f.crc, g.crc))],
+        _ => vec![], // a frame that does not round-trip at all is C20's finding
+    }
+}
+
 /// the same equivalence when the frame is decoded from a reader: one byte per read call, and
 /// positioned `off` bytes into a longer stream
 pub fn eval_crc_equiv_reader(buf: &[u8], off: usize) -> Sigs {
@@ -304,6 +315,7 @@ pub fn replay_c03(v: &Value) -> Vec<Failure> {
             }
             v2
         }
+        Some("serde_crc") => eval_crc_serde(&buf),
         Some("meaning") => {
             let t = v.get("target").and_then(|t| t.as_u64()).unwrap_or(0) as u32;
             eval_crc_meaning(&buf, t, v.get("what").and_then(|t| t.as_str()).unwrap_or("meaning"))
@@ -403,6 +415,10 @@ pub fn run_c03(ctx: &Ctx) -> ! {
             let (b, _) = with_len_mode(&mut rng, f);
             if run_case(st, "equiv", &b, &eval_crc_equiv) {
                 continue;
+            }
+            if st.evaluations % 16 == 5 {
+                run_case(st, "serde_crc", &b, &eval_crc_serde);
+                st.class("serialized form keeps the checksum");
             }
             if st.evaluations % 8 == 0 {
                 let off = [0usize, 7, 14, 3][(st.evaluations / 8 % 4) as usize];
